@@ -100,6 +100,7 @@ struct Runner : Hooks {
   void check_stop_model(Thread *t, int idx, const int stop[6], OpRes &res, HState &h, int st_before, int64_t t0, const char *prop);
 
   // helpers
+  void check_child_streams(size_t hi);
   Proc *proc_of(const HState &h) { return h.uid >= 0 ? K->procs[(size_t) h.uid] : nullptr; }
   int expected_status(Proc *p) { return p->death_by_sig ? 128 + p->death_sig : p->death_code; }
   bool child_dead(Proc *p) { return p && p->st != Proc::RUNNING; }
